@@ -185,7 +185,14 @@ def rule_own_fields(ctx: Ctx, rep: Report) -> None:
     rule_own_fields_forwarded(ctx, rep, "C03.own_fields", ('btclib.ecc.ssa',), 3)
 
 
+def rule_params_forwarded_(ctx: Ctx, rep: Report) -> None:
+    """C03.params_forwarded: a parameter is handed on to callees that have a parameter of the same name (see sigcommon.rule_params_forwarded)."""
+    from rules.sigcommon import rule_params_forwarded
+    rule_params_forwarded(ctx, rep, "C03.params_forwarded", ('btclib.ecc.ssa',), 30)
+
+
 RULES = [
+    ("C03.params_forwarded", rule_params_forwarded_),
     ("C03.own_fields", rule_own_fields),
     ("C03.dispatch_hf", rule_dispatch_hf),
     ("C03.signer_arm", rule_signer_arm),
